@@ -25,8 +25,11 @@ Proof.
   split.
   - intros H. destruct (H 3 w1_graph w1_calls w1_calls_ok) as (H1 & _).
     destruct (H1 w1_sched 1) as (j & Hj).
-    destruct unguarded_refuted_root as (E & _). rewrite E in Hj.
-    destruct j as [|j]; cbn in Hj; [discriminate|]. inversion Hj.
+    destruct unguarded_refuted_root as (E & Es & _). rewrite E in Hj.
+    change (nth 1 w1_calls []) with [1%N] in Hj.
+    destruct j as [|j]; [discriminate Hj|].
+    change (firstn (S j) [1%N]) with (1%N :: firstn j []) in Hj. cbn [map] in Hj.
+    rewrite Es in Hj. discriminate Hj.
   - intros H. apply unguarded_has_race. apply H. exact w1_calls_ok.
 Qed.
 
